@@ -439,15 +439,13 @@ class H2Server:
         body = response_body(plan, ex["token"], method)
         hs = [(b":status", str(plan["status"]).encode())] + _h2_resp_headers(plan, ex["token"])
         units = []
+        # header blocks are HPACK-encoded when they are *emitted* (the dynamic table depends on the order on the wire)
         for code in plan["interim"]:
-            blk = self.encoder.encode([(b":status", str(code).encode()), (b"x-interim", str(code).encode())])
-            fr = hf.HeadersFrame(sid, data=blk)
-            fr.flags.add("END_HEADERS")
-            units.append((fr.serialize(), 0, "HEADERS-1xx", False))
+            units.append((("lazy", sid, [(b":status", str(code).encode()), (b"x-interim", str(code).encode())], False, {}), 0,
+                          "HEADERS-1xx", False))
         trailers = plan.get("h2_trailers")
-        block = self.encoder.encode(hs)
         end_on_headers = (not body) and not trailers and plan.get("h2_empty_data") is None
-        units += self._header_frames(sid, block, end_on_headers, plan)
+        units.append((("lazy", sid, hs, end_on_headers, plan), 0, "HEADERS", end_on_headers))
         rst = plan.get("h2_rst")
         if body or plan.get("h2_empty_data") is not None:
             sizes = [s for s in plan.get("h2_frames", []) if s > 0] or [16384]
@@ -475,11 +473,7 @@ class H2Server:
                     fr.flags.add("END_STREAM")
                 units.append((fr, fr.flow_controlled_length, "DATA", last and not trailers))
         if trailers:
-            blk = self.encoder.encode([(b"x-trailer", b"1")])
-            fr = hf.HeadersFrame(sid, data=blk)
-            fr.flags.add("END_HEADERS")
-            fr.flags.add("END_STREAM")
-            units.append((fr.serialize(), 0, "HEADERS-trailers", True))
+            units.append((("lazy", sid, [(b"x-trailer", b"1")], True, {}), 0, "HEADERS-trailers", True))
         if rst is not None:
             k = rst.get("after", 0)
             units = units[:k]
@@ -491,7 +485,8 @@ class H2Server:
             units.append((b"", 0, "CLOSE", False))
         self.outq.setdefault(sid, []).extend(units)
 
-    def _header_frames(self, sid, block, end_stream, plan):
+    def _header_frames(self, sid, headers, end_stream, plan):
+        block = self.encoder.encode(headers)
         cont = plan.get("h2_continuation", 0)
         parts = [block]
         if cont and len(block) > 1:
@@ -518,7 +513,7 @@ class H2Server:
                 fr.flags.add("END_HEADERS")
             # a header block must not be interleaved with other frames: emit it as one unit
             out.append(fr.serialize())
-        return [(b"".join(out), 0, "HEADERS", end_stream)]
+        return b"".join(out)
 
     # ---- emission
     def emittable(self):
@@ -561,17 +556,19 @@ class H2Server:
                 self.send_conn_window -= avail
                 st["send_window"] -= avail
                 self.total_sent_data += avail
-                pipe.server_send(wire)
+                pipe.server_send(wire, direct=True)
                 self.log.append(("send", "DATA", q, avail, self.world.seq))
                 return True
             self.send_conn_window -= flow
             st["send_window"] -= flow
             self.total_sent_data += flow
             wire = fr.serialize()
+        elif isinstance(data, tuple) and data[0] == "lazy":
+            wire = self._header_frames(data[1], data[2], data[3], data[4])
         else:
             wire = data
         units.pop(0)
-        pipe.server_send(wire)
+        pipe.server_send(wire, direct=True)
         self.log.append(("send", label, q, len(wire), self.world.seq))
         if label.startswith("GOAWAY") and self.goaway_sent is not None:
             self.goaway_sent["sent_offset"] = len(pipe.sent)
